@@ -15,7 +15,7 @@ RULE = (
     "2^32-1,2^40,2^63,2^64-1}), 20 000 MORE frames in one read, hostile bytes before/inside the greeting, seeded "
     "random bytes; socket level (world engine, every poll on a 2 MiB-stack thread): for each of the 8 socket types that read, 6 000 / 25 000 "
     "items the recv loop ignores (READY commands; bogus subscriptions for PUB/XPUB; non-matching topics for SUB) in ONE "
-    "read followed by a valid message, then a healthy peer's message — no crash, both delivered. Non-trivial: the implementation returned something other than 'none' (an item or an error). "
+    "read followed by a valid message, then a healthy peer's message — no crash, both delivered; peer-state families: subscriptions of 0..1000 bytes (plain, cancelled, multi-frame, garbage) against published topics of 0..300 bytes on PUB/XPUB, ROUTER peers with identities of every legal length and sends to near-miss addresses, REP requests behind envelopes of up to 40 frames and their replies — state built from a peer's well-formed bytes must not make the application's own later call panic. Non-trivial: the implementation returned something other than 'none' (an item or an error). "
     "Spec oracle (needs no model): no PANIC, no abort/stack overflow of the child process, heap growth within "
     "64 x bytes-received + 32 KiB (peak growth and largest single request, measured around the decode calls)."
 )
@@ -113,6 +113,9 @@ def cases(tier, rng):
     # handshake code of every socket type (Socket-Type / Identity values of odd sizes, duplicates, unknown and empty
     # property names, no properties) — rejected or admitted, never a crash; a healthy peer still gets in afterwards
     out += hostile_handshakes(tier)
+    # socket level: state BUILT FROM peer bytes (subscriptions, identities, envelopes) and then used by the
+    # application's own calls (send / reply): well-formed but awkward values must not make a later API call panic
+    out += peer_state_cases(tier)
     # seeded random bytes
     kr = 2000 if tier == "quick" else 40000
     for _ in range(kr):
@@ -159,6 +162,82 @@ def hostile_handshakes(tier):
             sc.add("halves 2")
             out.append(Case(f"hostile-ready-{t}-{vname}#{n}", "world", list(sc.ops), ["socket-hostile-ready"]))
             n += 1
+    return out
+
+
+def peer_state_cases(tier):
+    from vlib import worldgen as wg
+    out = []
+    n = 0
+    sub_lens = [0, 1, 2, 16, 33, 255, 256, 1000]
+    topic_lens = [0, 1, 2, 15, 16, 17, 33, 300]
+    # PUB / XPUB: subscriptions of every length against topics of every length (shorter, equal, longer, empty)
+    for t in ("PUB", "XPUB"):
+        for shape in ("subscribe", "sub-unsub", "multiframe", "garbage"):
+            sc = wg.Script()
+            sc.sock(1, t)
+            sc.attach(1, 1, "SUB", b"odd")
+            sc.attach(1, 2, "SUB", b"good")
+            sc.reveal_msg(2, [b"\x01"])
+            for L in sub_lens:
+                body = bytes([0x61 + (i % 3) for i in range(L)])
+                if shape == "subscribe":
+                    sc.reveal_msg(1, [b"\x01" + body])
+                elif shape == "sub-unsub":
+                    sc.reveal_msg(1, [b"\x01" + body])
+                    sc.reveal_msg(1, [b"\x01" + body + b"z"])
+                    sc.reveal_msg(1, [b"\x00" + body])
+                elif shape == "multiframe":
+                    sc.reveal_msg(1, [b"\x01" + body, b"tail"])
+                    sc.reveal_msg(1, [b"\x01" + body])
+                else:
+                    sc.reveal_msg(1, [bytes([2 + L % 250]) + body])
+                    sc.reveal_msg(1, [b""])
+                    sc.reveal_msg(1, [b"\x01" + body])
+            if t == "PUB":
+                sc.add("drain")
+            else:
+                for _ in range(len(sub_lens) * 3 + 2):
+                    f = sc.fut()
+                    sc.add(f"recv {f} 1", f"poll {f}", f"drop {f}")
+            for L in topic_lens:
+                for first in (bytes([0x61 + (i % 3) for i in range(L)]), b"q" * L):
+                    f = sc.fut()
+                    sc.add(f"send {f} 1 {wg.mtok([first, b'body'])}", f"poll {f}", f"drop {f}", "wire 1", "wire 2")
+            out.append(Case(f"peer-state-{t}-{shape}#{n}", "world", list(sc.ops), ["socket-peer-state"]))
+            n += 1
+    # ROUTER: identities of every legal length, then sends addressed to them / to near misses
+    for L in ([1, 2, 16, 17, 255] if tier == "quick" else [1, 2, 15, 16, 17, 100, 254, 255]):
+        ident = bytes([0x41 + (i % 5) for i in range(L)])
+        sc = wg.Script()
+        sc.sock(1, "ROUTER")
+        sc.attach(1, 1, "DEALER", ident)
+        sc.attach(1, 2, "DEALER", b"good")
+        for tgt in (ident, ident[:-1], ident + b"A", ident * 2, b"good"):
+            if not tgt:
+                continue
+            f = sc.fut()
+            sc.add(f"send {f} 1 {wg.mtok([tgt, b'x'])}", f"poll {f}", f"drop {f}", "wire 1", "wire 2")
+        out.append(Case(f"peer-state-ROUTER-ident-{L}#{n}", "world", list(sc.ops), ["socket-peer-state"]))
+        n += 1
+    # REP: requests with long / odd envelopes, then the reply that has to retrace them
+    for env in ([], [b"r" * 255], [b"a", b"b" * 255, b"c" * 300], [b"x"] * 40):
+        sc = wg.Script()
+        sc.sock(1, "REP")
+        sc.attach(1, 1, "DEALER", b"odd")
+        sc.attach(1, 2, "REQ", b"good")
+        sc.reveal_msg(1, env + [b"", b"question", b"", b"more"])
+        f = sc.fut()
+        sc.add(f"recv {f} 1", f"poll {f}", f"drop {f}")
+        f = sc.fut()
+        sc.add(f"send {f} 1 {wg.mtok([b'answer', b''])}", f"poll {f}", f"drop {f}", "wire 1", "wire 2")
+        sc.reveal_msg(2, [b"", b"q2"])
+        f = sc.fut()
+        sc.add(f"recv {f} 1", f"poll {f}", f"drop {f}")
+        f = sc.fut()
+        sc.add(f"send {f} 1 {wg.mtok([b'a2'])}", f"poll {f}", f"drop {f}", "wire 1", "wire 2")
+        out.append(Case(f"peer-state-REP-envelope-{len(env)}#{n}", "world", list(sc.ops), ["socket-peer-state"]))
+        n += 1
     return out
 
 
@@ -219,6 +298,10 @@ def oracle(case, impl_lines):
         if "socket-hostile-ready" in case.tags:
             if polls and "attach" in " ".join(case.ops[-6:]) and not polls[-1].startswith("ready ok id="):
                 return f"after the hostile handshake a healthy peer is no longer admitted: {polls[-1]}"
+            return None
+        if "socket-peer-state" in case.tags:
+            if not polls or not polls[-1].startswith("ready ok"):
+                return f"after handling a peer's odd but well-formed values the socket's own calls fail: {polls[-1:]}"
             return None
         if not any(l.startswith("ready ok M[") or l == "ready ok" for l in polls[-2:]):
             return f"after the flood the socket no longer delivers: {polls[-2:]}"
